@@ -83,8 +83,11 @@ PROPS = {
         "manifest": {
             "text": "Lean theorems on a whole-message composition model: (a) per-connection pipeline (parser -> per-conn job queue -> "
                     "response writer, each represented by the conclusion of its own property) under every interleaving of parsing, job "
-                    "execution and closes: wire is always a prefix of resp_1..resp_m, equals it at quiescence, closed iff a closing request "
-                    "exists, nothing after the close; closeDecision = RFC 7230 6.3 on single-option Connection values; (b) non-interference "
+                    "execution, short writes, flushes and closes: wire is always a prefix of resp_1..resp_m and nothing follows a close; at "
+                    "quiescence it EQUALS resp_1..resp_m only when no close found bytes still queued (any history without closing request, "
+                    "or a kernel that takes every write in full) - for a closing request under a short write the tree truncates the answer "
+                    "(known finding c10-close-drops-backlog, c10_pipeline_counterexample); closed iff a closing request exists; "
+                    "closeDecision = RFC 7230 6.3 on single-option Connection values only; (b) non-interference "
                     "of N connections on a shared buffer heap under C11/C20's conclusions; (c) client callback FIFO: exactly once, k-th "
                     "callback gets the k-th response or an error.  Tied to the code by real nbhttp engines over loopback: the per-connection "
                     "response sequence observed by a raw pipelining client, net/http and the nbhttp client is compared with the model's "
@@ -97,7 +100,19 @@ PROPS = {
                     "(c10_pipeline_keepalive), for any history when the kernel takes every write in full (c10_pipeline), and otherwise only "
                     "under the ghost condition dropped = false (c10_pipeline_partial).  'bytes never appear on another connection': the "
                     "SharedHeap theorem is about the mechanism and is executed by no driver — the tie of this clause is the oracle "
-                    "c10-foreign only.  Shared pollers / executors / the fd table have no model (oracles only)",
+                    "c10-foreign only.  Shared pollers / executors / the fd table have no model (oracles only).  "
+                    "What a reader should NOT conclude: (1) the staleRead-freedom hypothesis of c10_noninterference is established by no "
+                    "theorem of C11; it rests on C09's byte-level differential and c10-foreign.  (2) the interleaving fed to Pipeline.run "
+                    "(sched=) comes from the generator, not from the observed execution; external closes (extClose) and short writes are "
+                    "replayed only in the forced-schedule histories (xclose=: the harness closes the server-side connection from outside "
+                    "between two pipelined requests; sndbuf=: a backlog the handler observed, echoed as short=); aborting clients are "
+                    "predicted by truncating the history; the cut= and forced paths are covered by the safety theorems "
+                    "(c10_wire_prefix, c10_close_cause, c10_run_cut_checked), not by c10_run_checked.  (3) the close rule is proved equal "
+                    "to RFC 7230 6.3 only for single-option Connection lines (lists in one line deviate: "
+                    "c10_close_rfc_list_counterexample).  (4) client clause: got=/lost= are echoed; timeout expiry inside onResponse and "
+                    "Reset are never replayed against the implementation; the response-matches-request part assumes EnvOK (the peer sends "
+                    "exactly one response per request on the current connection).  (5) C05 is cited in the closure "
+                    "(c10_queue_field_is_c05), not refined: no theorem links ExecQ.step to Pipeline.step",
             "technique": "Lean 4 proof (invariants over all interleavings, simulation for non-interference) + differential correspondence on real sockets"},
         "lean": ["NbioVerif.Properties.C10"], "drivers": ["pipedrv"], "harness": ["he2e"],
         "runs": [E2E_RUN],
@@ -117,7 +132,7 @@ PROPS = {
                         "echoed inputs of the model (taken from the implementation, not computed): got= (number of responses the nbhttp "
                         "client's parser delivered; the model only insists got <= what the server sent), lost= (pool-client requests whose "
                         "callback got an error), cut= (first response that broke off; accepted only if a closing request at or behind it "
-                        "exists); sched= comes from the generator, the real interleaving is not observed; cfg.sync is not observable; "
+                        "exists), short= (write backlogs the handler observed through the hook VerifState); sched= comes from the generator, the real interleaving is not observed; cfg.sync is not observable; "
                         "the ghost `handled` is not compared (handler order is a direct oracle instead); st=/body=/rb= are recomputed by "
                         "driver glue from the request line, not by a proved function",
                         "ClientFifo operations never executed against the implementation: timeout expiry inside onResponse, reset "
